@@ -105,6 +105,56 @@ Proof.
   nia.
 Qed.
 
+(** Whatever the sub-millisecond phase of the clock: when the clock reading lies in slot k, a
+    timestamp whose millisecond lies in slot k+2 or later is future. *)
+Theorem now_and_block_same_grid iv now ts k :
+  0 < iv -> 0 <= now -> 0 <= ts ->
+  (k - 1) * iv < ns_to_ms now <= k * iv -> (k + 1) * iv < ns_to_ms ts ->
+  is_future (from_unix_ns iv ts) (now_slot iv now) = true.
+Proof.
+  intros Hiv Hnow Hts Hk Hts2. unfold is_future, now_slot; cbn [s_next from_unix_ns].
+  pose proof (ns_to_ms_nonneg now Hnow) as Hn'. pose proof (ns_to_ms_nonneg ts Hts) as Ht'.
+  assert (Ea : next_index iv (ns_to_ms now) = k) by (apply next_index_spec; assumption).
+  set (b := next_index iv (ns_to_ms ts)).
+  assert (Hb : (b - 1) * iv < ns_to_ms ts <= b * iv) by (apply next_index_spec; [lia|lia|reflexivity]).
+  rewrite Ea. apply Z.leb_le. nia.
+Qed.
+
+(** and conversely a timestamp in slot k+1 or earlier is not *)
+Theorem now_and_block_same_grid_not_future iv now ts k :
+  0 < iv -> 0 <= now -> 0 <= ts ->
+  (k - 1) * iv < ns_to_ms now <= k * iv -> ns_to_ms ts <= (k + 1) * iv ->
+  is_future (from_unix_ns iv ts) (now_slot iv now) = false.
+Proof.
+  intros Hiv Hnow Hts Hk Hts2. unfold is_future, now_slot; cbn [s_next from_unix_ns].
+  pose proof (ns_to_ms_nonneg now Hnow) as Hn'. pose proof (ns_to_ms_nonneg ts Hts) as Ht'.
+  assert (Ea : next_index iv (ns_to_ms now) = k) by (apply next_index_spec; assumption).
+  set (b := next_index iv (ns_to_ms ts)).
+  assert (Hb : (b - 1) * iv < ns_to_ms ts <= b * iv) by (apply next_index_spec; [lia|lia|reflexivity]).
+  rewrite Ea. apply Z.leb_gt. nia.
+Qed.
+
+Theorem now_and_block_same_grid_both iv now ts k :
+  0 < iv -> 0 <= now -> 0 <= ts ->
+  (k - 1) * iv < ns_to_ms now <= k * iv ->
+  ((k + 1) * iv < ns_to_ms ts -> is_future (from_unix_ns iv ts) (now_slot iv now) = true) /\
+  (ns_to_ms ts <= (k + 1) * iv -> is_future (from_unix_ns iv ts) (now_slot iv now) = false).
+Proof.
+  intros H1 H2 H3 H4. split; intros H5.
+  - exact (now_and_block_same_grid iv now ts k H1 H2 H3 H4 H5).
+  - exact (now_and_block_same_grid_not_future iv now ts k H1 H2 H3 H4 H5).
+Qed.
+
+(** With a clock rounded to the nearest millisecond the two grids differ: in the last half
+    millisecond of slot k a timestamp of slot k+2 is not future. *)
+Theorem rounded_clock_off_grid_refuted :
+  exists iv now ts k,
+    (k - 1) * iv < ns_to_ms now <= k * iv /\ (k + 1) * iv < ns_to_ms ts /\
+    is_future (from_unix_ns iv ts) (rounded_now_slot iv now) = false.
+Proof.
+  exists 1000, (5000 * 1000000 + 600000), (6001 * 1000000), 5. vm_compute. repeat split; discriminate.
+Qed.
+
 Section Members.
   Context {ID : Type} (id_eqb : ID -> ID -> bool).
   Hypothesis id_eqb_spec : forall a b, id_eqb a b = true <-> a = b.
